@@ -160,6 +160,9 @@ func TestVerifC13Faults(t *testing.T) {
 							if sameSlot(opts[i], opts[k]) || sameSlot(opts[j], opts[k]) {
 								continue
 							}
+							if vacuous([]dev{opts[i], opts[j], opts[k]}) {
+								continue
+							}
 							emit(faultCase{Rounds: rounds, Devs: []dev{opts[i], opts[j], opts[k]}})
 						}
 					}
@@ -197,6 +200,53 @@ func TestVerifC13Faults(t *testing.T) {
 	_ = os.RemoveAll(base)
 	pprof.StopCPUProfile()
 	os.Exit(0)
+}
+
+// shadowed returns the positions of a round's plan at which a deviation can
+// never be consumed because the unchanged code does not request them in that
+// round: everything after a rule-list index that failed to load, list 2 when
+// its index entry is unusable, the safe-search list after a service index
+// that failed.  A history with a shadowed deviation executes exactly like the
+// history without it, which is explored at the lower deviation count.
+func shadowed(plan map[string]string) (pos []string) {
+	idxKind := plan[posIdx]
+	for _, p := range storagePositions {
+		k, ok := plan[p]
+		if !ok || k == "" {
+			continue
+		}
+		switch {
+		case p != posIdx && (isFetchFault(idxKind) || idxKind == kNotJSON):
+			pos = append(pos, p)
+		case p == posL2 && in(idxKind, kBadKey, kEmptyURL, kBadURL):
+			pos = append(pos, p)
+		case p == posSS && plan[posSvc] != "":
+			pos = append(pos, p)
+		}
+	}
+
+	return pos
+}
+
+// premiseBroken is set once the reduction premise was seen to fail.
+var premiseBroken bool
+
+// vacuous reports whether a history contains a shadowed deviation.
+func vacuous(devs []dev) (ok bool) {
+	plans := map[int]map[string]string{}
+	for _, d := range devs {
+		if plans[d.R] == nil {
+			plans[d.R] = map[string]string{}
+		}
+		plans[d.R][d.P] = d.K
+	}
+	for _, plan := range plans {
+		if len(shadowed(plan)) > 0 {
+			return true
+		}
+	}
+
+	return false
 }
 
 // findings collects at most one finding per key for one history.
@@ -299,6 +349,15 @@ func runStorageHistory(r *vrt.Run, dir string, c faultCase) (out []vrt.Finding) 
 		for pos := range w.requested {
 			if !in(pos, storagePositions...) {
 				reqs = append(reqs, "?"+pos)
+			}
+		}
+		for _, pos := range shadowed(plan) {
+			// Premise of the reduction used at 3 deviations.
+			if w.requested[pos] > 0 && !premiseBroken {
+				premiseBroken = true
+				r.NotExhaustive(fmt.Sprintf("reduction premise broken: position %s was requested in a round with plan %v", pos, plan))
+			} else if w.requested[pos] == 0 {
+				r.Count("shadowed-deviation-confirmed-unrequested", 1)
 			}
 		}
 		w.mu.Unlock()
